@@ -92,6 +92,18 @@ func genC08(r *Rng, tier string) []*Case {
 		if r.Chance(50) {
 			t = canonVec(t)
 		}
+		if r.Chance(12) && n >= 3 {
+			// products that underflow to zero in the middle of a distrust row (a vanishing weight next to ordinary
+			// ones, voiced by a peer with a small score): the dropped product must not disturb its neighbours
+			i := r.Intn(n)
+			row := sortedSpan(r, n, 100, 0, r.Pos)
+			row[r.Intn(len(row)-1)].V = JFloat([]float64{1e-320, 5e-324, 3e-322}[r.Intn(3)])
+			d.Rows = append(d.Rows, make([][]Ent, n)...)[:n]
+			d.Major, d.Minor = n, n
+			d.Rows[i] = row
+			t = Vec{Dim: n, Ents: sortedSpan(r, n, 100, 0, r.Pos)}
+			t.Ents[i].V = 1e-4
+		}
 		cs = append(cs, mk("Discount", c08Discount{T: t, D: d}))
 	}
 	return cs
